@@ -1,10 +1,13 @@
 import HsVerif.Drv.Core
 import HsVerif.Drv.Quorum
+import HsVerif.Drv.IDSet
 open HsVerif.Drv
 
 def families : List (String × Fam) := [
   ("quorum", quorumFam),
-  ("quorum.oracle", quorumOracle)
+  ("quorum.oracle", quorumOracle),
+  ("idset", idsetFam),
+  ("idset.oracle", idsetOracle)
 ]
 
 def main (args : List String) : IO UInt32 := do
